@@ -620,9 +620,11 @@ def keyword_keys(ctx):
     from .gen import KEYWORDS
     out = []
     for k in KEYWORDS:
-        objs = [obj({k: I(1), 'a': {k: I(1)}}), obj({k: {'a': I(1)}, 'a': I(1)}), obj({k: S('s'), k + 'x': I(1)}), obj({k: I(21)})]
+        objs = [obj({k: I(1), 'a': {k: I(1)}}), obj({k: {'a': I(1)}, 'a': I(1)}), obj({k: S('s'), k + 'x': I(1)}), obj({k: I(21)}), obj({k: I(0)}), obj({k: ('b', True), 'flags': {k: ('b', True)}}),
+                obj({k.lower(): I(7), k.upper(): ('b', False)})]
         for t in ['%s eq 1' % k, '%s ge 18' % k, '%s pr' % k, '%s eq "s"' % k, '%s.a eq 1' % k, 'a.%s eq 1' % k, '%s == 1' % k, '%s in [1]' % k, '%s ne 2' % k, '%s lt 100' % k,
-                  ' %s eq 1' % k, '%s eq 1 ' % k, '%s  eq 1' % k, '%sx eq 1' % k, '%s EQ 1' % k, '%s gt 0' % k, '%s le 21' % k, 'a eq 1 and %s eq 1' % k, '(%s eq 1)' % k, 'not (%s eq 1)' % k]:
+                  ' %s eq 1' % k, '%s eq 1 ' % k, '%s  eq 1' % k, '%sx eq 1' % k, '%s EQ 1' % k, '%s gt 0' % k, '%s le 21' % k, 'a eq 1 and %s eq 1' % k, '(%s eq 1)' % k, 'not (%s eq 1)' % k,
+                  '%s eq null' % k, '%s ne null' % k, '%s eq true' % k, '%s ne false' % k, 'flags.%s eq true' % k, 'flags.%s pr' % k]:
             for o in objs:
                 out.append((t, o, 'keyword-keys'))
     return out
@@ -676,3 +678,89 @@ def law_operands(ctx):
                 out.append((B, A, C, o_full, 'law-path-neighbours'))
                 out.append((C, A, B, o_full, 'law-path-neighbours'))
     return out
+
+# ----------------------------------------------------------------------------
+# batch 13
+# ----------------------------------------------------------------------------
+def error_counts(ctx):
+    """a complete rule surrounded by exactly k unexpected characters, k over every residue of small moduli (error collectors that
+    count, cap or wrap), with the recovered tree intact"""
+    out = []
+    ks = list(range(1, 70)) + [96, 127, 128, 129, 255, 256, 257, 512, 1024] + ([] if ctx.quick else [2048, 4096, 65536])
+    for k in ks:
+        for ch in '~?$':
+            out.append('x eq 1' + ch * k)
+            out.append('x eq 1 ' + ch * k + 'and y eq 2')
+            out.append('(' + ch * k + 'x eq 1)')
+        out.append('x eq 1 ' + ') ' * k)
+        out.append('x eq 1' + ' y' * k)
+        out.append('x eq 1 and ' * k)
+    return out
+
+MAGIC_NAMES = ['length', 'len', 'size', 'count', 'keys', 'values', 'type', 'class', 'first', 'last', '0', '1', '-1', '_', '__proto__', 'constructor', 'toString', 'self', 'this', 'parent', 'root',
+               'id', 'name', 'value', 'key', 'index', 'empty', 'exists', 'present', 'isNull', 'not_null', 'any', 'all', 'some', 'none', 'Length', 'LENGTH', 'cap', 'String', 'Error', 'error', 'nil', 'NaN', 'Vals', 'Msg', 'Err']
+
+def magic_names(ctx):
+    """path steps that other systems treat as built-ins (length, size, keys, first, ...): here they are ordinary keys"""
+    out = []
+    for nm in MAGIC_NAMES:
+        objs = [obj({'body': {'a': I(1), 'b': I(2)}, 'k': I(1)}), obj({'body': S('text')}), obj({'body': ('o', 1)}), obj({'body': ('o', 33)}), obj({'body': {nm: I(2)}}), obj({}), obj({'body': ('nil',)}),
+                obj({'body': ('o', 44)}), obj({nm: I(2), 'body': {'x': {}}})]
+        for t in ['body.%s pr', 'body.%s eq null', 'body.%s ne null', 'body.%s eq 2', 'body.%s gt 1', '%s pr', '%s.x pr', 'body.%s.x pr', 'body.x.%s eq 0', 'not (body.%s pr)', 'body.%s eq true', 'body.%s in [2, 4]',
+                  'k eq 1 and body.%s eq null']:
+            for o in objs:
+                out.append((t % nm, o, 'magic-names'))
+    return out
+
+def list_parents(ctx):
+    """a path that continues below a list (of objects, of maps, of strings): never a lookup inside the elements"""
+    out = []
+    for tag in (44, 45, 1, 34, 33, 47, 49):
+        for o in (obj({'emails': ('o', tag), 'k': I(1)}), obj({'n': {'emails': ('o', tag)}, 'k': I(1)})):
+            for p in ('emails', 'n.emails'):
+                for t in ['%s.primary pr', '%s.primary eq true', '%s.primary ne false', '%s.primary ne null', '%s.old eq null', '%s.y eq 1', '%s.name eq "bob"', '%s.a.b eq 1', '%s pr', '%s eq null', '%s.0 pr',
+                          '%s.0.y eq 1', 'k eq 1 or %s.primary pr', 'k eq 2 or %s.y eq 1', 'not (%s.primary pr)', '%s.length gt 0', '%s in ["admin"]', '%s in [7, 9]', '%s co "a"']:
+                    out.append((t % p, o, 'list-parents'))
+    return out
+
+def version_pairs(ctx):
+    """two (three) version comparisons in one rule on attributes holding the same text, valid or not: (text, obj, fam, (components, fn))"""
+    out = []
+    texts = ['1.2', '1.2.0', 'abc', '', '1.2.0-rc1', '01.2.0', '1.2.0.0', 'v1.2.0', '18446744073709551616.0.0', '1.2.x']
+    for a in texts:
+        for b in texts[:5] + [a]:
+            o = obj({'app': S(a), 'os': {'rel': S(b)}, 'lib': S(a)})
+            for (c1, c2) in [('app eq 1.2.0', 'os.rel lt 9.9.9'), ('app ne 1.2.0', 'lib ne 1.2.0'), ('app lt 9.9.9', 'lib lt 9.9.9'), ('os.rel ge 0.0.1', 'app ge 0.0.1'), ('app gt 1.0.0', 'app gt 1.0.0')]:
+                for conn, fn in (('or', lambda x, y: x or y), ('and', lambda x, y: x and y)):
+                    out.append(('%s %s %s' % (c1, conn, c2), o, 'version-pairs', ([c1, c2], fn)))
+                out.append(('not (%s) and %s' % (c1, c2), o, 'version-pairs', ([c1, c2], lambda x, y: (not x) and y)))
+    return out
+
+def failing_groups(ctx):
+    """two operands that fail / panic / are undecided in DIFFERENT ways, with and without redundant parentheses around each:
+    (base text, [variants], object)"""
+    out = []
+    fails = ['active gt true', 'tier eq 99999999999999999999', 'tier in [1, 99999999999999999999]', 'name eq "ann"', 'n.b eq 1', 'score lt 1.0e999', 'active co "x"', 'v in 1.0.0', 'tier eq 2', 'zz pr', 'name.first eq "a"']
+    objs = [obj({'active': ('b', True), 'tier': I(1), 'name': ('strpanic',), 'n': I(5), 'score': F(1.0), 'v': S('1.0.0')}),
+            obj({'active': ('b', True), 'tier': I(2), 'name': S('ann'), 'n': {'b': I(1)}, 'score': F(1.0), 'v': S('1.0.0')}),
+            obj({'name': ('strpanicinvop',), 'tier': I(2), 'n': S('s')}), obj({'name': ('strselfpanic',), 'tier': I(1), 'n': ('o', 1), 'active': I(0)})]
+    for a in fails:
+        for b in fails:
+            if a == b:
+                continue
+            for conn in ('or', 'and'):
+                base = '%s %s %s' % (a, conn, b)
+                variants = ['(%s) %s %s' % (a, conn, b), '%s %s (%s)' % (a, conn, b), '(%s) %s (%s)' % (a, conn, b), '((%s)) %s %s' % (a, conn, b), '( %s ) %s %s' % (a, conn, b), '(%s %s %s)' % (a, conn, b)]
+                for o in (objs if not ctx.quick else ctx.rng.sample(objs, 2)):
+                    out.append((base, variants, o))
+    return out
+
+def inf_lists(ctx):
+    """lists of decimals with elements beyond the float64 range next to attributes that are infinite: (in text, expanded text, obj)"""
+    out = []
+    for lst in (['1.5', '1.0e999'], ['1.0e999'], ['-1.0e999', '2.5'], ['1.0e999', '-1.0e999', '0.5'], ['1.5', '1.0e400', '2.5'], ['0.5', '1.5']):
+        for a in (F(float('inf')), F(float('-inf')), F(1.5), F(0.5), F(float('nan')), F(1e308), I(1), ABSENT_):
+            o = obj({} if a is ABSENT_ else {'x': a})
+            out.append(('x in [%s]' % ', '.join(lst), ' or '.join('x eq %s' % e for e in lst), o))
+    return out
+ABSENT_ = ('absent',)
